@@ -24,6 +24,11 @@ GRAMMARS = {
     "underscore_rule": "start: NAME\n_bad: NAME\n",
     "no_start": "begin: NAME\n",
     "bad_action": "start: a=NAME { a + } \n",
+    "bad_action_in_group": "start: NUMBER (a=NAME { a + }) NEWLINE | NAME\n",
+    "bad_action_after_unreachable": "start: a=NAME { foo(a, UNREACHABLE) } | NUMBER\n",
+    "undefined_gather_separator": "start: sep.NAME+ NEWLINE\n",
+    "undefined_nested": "start: [(NAME | (NUMBER &undefined_rule))*] NEWLINE\n",
+    "underscore_item": "start: _x=NAME NEWLINE\n",
     "no_leader": "start: a NEWLINE\na: b 'x' | c 'x' | 'q'\nb: a 'y' | c 'y'\nc: a 'z' | b 'z'\n",
     # generation itself would succeed, but the command line's validator rejects the grammar (unreachable alternative)
     "validator_rejects": "start: NAME | NAME NAME\n",
@@ -262,6 +267,14 @@ def run(chk: common.Check, tier: str):
                 with _real_open(gpath, "w") as f:
                     f.write(gtext)
             ref_api = reference_text(gpath) if gtext is not None else None
+            # which causes are failures is part of the property, not something to learn from the implementation
+            expected_ok = gname.startswith("ok_") or gname == "validator_rejects"
+            chk.count()
+            if gtext is not None and (ref_api is not None) != expected_ok:
+                chk.violation(f"generation from the grammar {gname!r} {'succeeds' if ref_api is not None else 'fails'}; "
+                              f"it is {'a valid grammar' if expected_ok else 'a failure cause of the property (ill-formed grammar / bad action)'}",
+                              {"grammar": gname, "grammar_text": gtext, "generation": "text produced" if ref_api is not None else "raised",
+                               "how": "build_parser + PythonParserGenerator(grammar, StringIO()).generate()"}, True)
             valid = cli_validates(gpath) if gtext is not None else True
             ref = ref_api
             n = len(ref) if ref else 0
